@@ -16,6 +16,9 @@ class Unknown(Exception):
     pass
 
 
+ISINST_TERMS = {}
+
+
 class Vec(list):
     """minimal stand-in for a 1-d array in guard evaluation (element-wise comparison only)"""
 
@@ -54,6 +57,8 @@ class TermEval:
         h = t[0]
         if h == "builtin" and t[1] == "Ellipsis":
             return Ellipsis
+        if h in ("ext", "builtin") and len(t) == 2 and isinstance(t[1], str):
+            return t                # a type / module member: stands for itself (isinstance resolves it)
         if h == "comp":
             return self.comp(t)
         if h == "star":
@@ -275,8 +280,26 @@ class TermEval:
                "py:tuple": tuple, "py:type": type, "py:slice": slice, "ext:numbers.Integral": numbers.Integral,
                "ext:numbers.Real": numbers.Real, "ext:numbers.Number": numbers.Number}
 
+    def _typenames(self, spec):
+        if isinstance(spec, (tuple, list)) and spec and spec[0] == "ext" and isinstance(spec[1], str):
+            return ["ext:" + spec[1]]
+        if isinstance(spec, (tuple, list)) and spec and spec[0] == "builtin":
+            return ["py:" + spec[1]]
+        if isinstance(spec, (tuple, list)):
+            out = []
+            for x in spec:
+                out += self._typenames(x)
+            return out
+        raise Unknown("class expression %r" % (spec,))
+
     def isinst(self, v, key):
+        names = []
         for n in key.split("|"):
+            if n.startswith("?:") and n in ISINST_TERMS:
+                names += self._typenames(self.ev(ISINST_TERMS[n]))
+            else:
+                names.append(n)
+        for n in names:
             if n in self.PYTYPES:
                 if isinstance(v, self.PYTYPES[n]):
                     return True
